@@ -4015,7 +4015,7 @@ impl<'a> ZonedDifference<'a> {
             )
         })?;
         if t::sign(zdt2, &zmid) == -sign {
-            if sign == C(-1) {
+            if sign == C(-1) && day_correct > C(0) {
                 panic!("this should be an error");
             }
             day_correct += C(1);
